@@ -1,6 +1,7 @@
 package main
 
 import (
+	"sync/atomic"
 	"bytes"
 	"context"
 	"encoding/json"
@@ -9,6 +10,7 @@ import (
 	"os/exec"
 	"path/filepath"
 	"regexp"
+	"runtime"
 	"sort"
 	"strings"
 	"sync"
@@ -43,6 +45,13 @@ type runner struct {
 	coldMu   sync.Mutex
 	sweeps   map[string]*sweepPrep
 	buildMu  sync.Mutex
+	// gate: ordinary worker runs hold it shared; the confirmation run of a
+	// suspected hang holds it exclusively, so that it is not slowed down by the
+	// sixteen other workers of this very check
+	gate sync.RWMutex
+	// abort: set once the check has decided to stop early; pending
+	// confirmations of suspected hangs are abandoned
+	abort int32
 }
 
 type coldRef struct {
@@ -78,6 +87,38 @@ func (r *runner) exec(v *variant, timeout time.Duration, args ...string) *runInf
 }
 
 func (r *runner) execEnv(v *variant, timeout time.Duration, extraEnv []string, args ...string) *runInfo {
+	r.gate.RLock()
+	defer r.gate.RUnlock()
+	return r.execRaw(v, timeout, extraEnv, args...)
+}
+
+// loadFactor: how much slower than normal this machine currently is for one
+// more process (1-minute load average over the number of CPUs), between 1 and 3.
+func loadFactor() float64 {
+	data, err := os.ReadFile("/proc/loadavg")
+	if err != nil {
+		return 1
+	}
+	var l1 float64
+	fmt.Sscanf(string(data), "%f", &l1)
+	f := l1 / float64(runtime.NumCPU())
+	if f < 1 {
+		return 1
+	}
+	if f > 3 {
+		return 3
+	}
+	return f
+}
+
+// execExclusive: no other worker of this check runs at the same time.
+func (r *runner) execExclusive(v *variant, timeout time.Duration, extraEnv []string, args ...string) *runInfo {
+	r.gate.Lock()
+	defer r.gate.Unlock()
+	return r.execRaw(v, timeout, extraEnv, args...)
+}
+
+func (r *runner) execRaw(v *variant, timeout time.Duration, extraEnv []string, args ...string) *runInfo {
 	ctx, cancel := context.WithTimeout(context.Background(), timeout)
 	defer cancel()
 	cmd := exec.CommandContext(ctx, v.Bin, args...)
@@ -169,6 +210,7 @@ type outcome struct {
 	Dur      time.Duration
 	Nontriv  bool
 	PlanHash string
+	Skipped  bool // not examined (the check was already stopping)
 }
 
 // runPlan executes a plan (generated from prop/seed/index, or given) in a fresh
@@ -225,7 +267,17 @@ func (r *runner) runPlanX(v *variant, prop string, seed int64, index int, tier s
 			oc.Viols = append(oc.Viols, plan.Violation{Oracle: "hang", Where: "worker", Sig: "hang", Detail: "(shrinking candidate) " + hangMsg})
 			return oc
 		}
-		info2 := r.execEnv(v, 4*r.timeout, []string{"VERIF_STEP_BUDGET=" + (4 * r.stepBudget()).String()}, args...)
+		if atomic.LoadInt32(&r.abort) != 0 {
+			// the check is stopping (two hangs are already confirmed): not examined
+			oc.Plan = getPlan()
+			oc.Skipped = true
+			return oc
+		}
+		// confirmation: four times the budget, more on a machine that other jobs
+		// keep busy (an exclusive confirmation run was tried and dropped: a change
+		// that makes many plans slow but not endless then serialises the check)
+		lf := loadFactor()
+		info2 := r.execEnv(v, time.Duration(4*lf*float64(r.timeout)), []string{"VERIF_STEP_BUDGET=" + time.Duration(4*lf*float64(r.stepBudget())).String()}, args...)
 		if info2.Out == nil && strings.Contains(info2.Stderr, "step watchdog:") {
 			info2.TimedOut = true
 			hangMsg = tailLines(info2.Stderr, 2)
@@ -447,6 +499,20 @@ func (r *runner) cold(v *variant, p *plan.Plan, k int) *coldRef {
 	}
 }
 
+// forgetCold drops the memoised cold references of the sessions of a plan: a
+// difference found against a memoised reference is re-examined against
+// references computed afresh.
+func (r *runner) forgetCold(v *variant, p *plan.Plan) {
+	if p == nil {
+		return
+	}
+	r.memoMu.Lock()
+	for k := range p.Sessions {
+		delete(r.memo, v.Hash+"|"+plan.HashOf(p.Sessions[k]))
+	}
+	r.memoMu.Unlock()
+}
+
 func (r *runner) computeCold(v *variant, p *plan.Plan, k int) *coldRef {
 	iso := *p
 	iso.Sessions = []plan.Session{p.Sessions[k]}
@@ -460,14 +526,28 @@ func (r *runner) computeCold(v *variant, p *plan.Plan, k int) *coldRef {
 	defer os.Remove(f)
 	var runs [][]string
 	for i := 0; i < coldRepeats; i++ {
-		info := r.exec(v, r.timeout, "exec", "-plan", f, "-noplan", "-variant", v.Name)
-		r.coldMu.Lock()
-		r.coldRuns++
-		r.coldMu.Unlock()
-		if info.Out == nil {
-			return &coldRef{Fatal: fatalSummary(info.Stderr)}
+		var obs []string
+		for attempt := 0; ; attempt++ {
+			info := r.exec(v, r.timeout, "exec", "-plan", f, "-noplan", "-variant", v.Name)
+			r.coldMu.Lock()
+			r.coldRuns++
+			r.coldMu.Unlock()
+			if info.Out == nil {
+				return &coldRef{Fatal: fatalSummary(info.Stderr)}
+			}
+			obs = info.Out.Result.Obs[p.Sessions[k].ID]
+			if len(obs) > 0 || len(p.Sessions[k].Steps) == 0 {
+				break
+			}
+			// A reference run that reports nothing for a session with steps is
+			// trouble of the harness or the machine (met once, on a machine loaded
+			// three times over), never an observation: retried, then given up.
+			if attempt >= 2 {
+				fmt.Fprintf(os.Stderr, "[check] cold reference of session %s returned no observation three times: session excluded\n", p.Sessions[k].ID)
+				return &coldRef{Fatal: "cold reference run returned no observation (harness trouble)"}
+			}
 		}
-		runs = append(runs, info.Out.Result.Obs[p.Sessions[k].ID])
+		runs = append(runs, obs)
 	}
 	for i := 1; i < len(runs); i++ {
 		if diffObs(runs[0], runs[i]) != "" {
